@@ -17,4 +17,10 @@ for prop, name, d in sorted(rows):
     out.append('| %s | `%s` | %s | %s | %s | %s |' % (prop, name, d['author'].split('(')[0].strip(), d['needs_to_manifest'].replace('|', '/'),
                                                    '<br>'.join('`%s`' % c for c in d['caught_by']) or '**not caught**', note.replace('|', '/')))
 open(os.path.join(HERE, 'seeded', 'SUMMARY.md'), 'w').write('\n'.join(out) + '\n')
+design = os.path.join(HERE, 'DESIGN.md')
+d = open(design).read()
+b, e = '<!-- SEEDED-SUMMARY-BEGIN -->', '<!-- SEEDED-SUMMARY-END -->'
+if b in d and e in d:
+    d = d[:d.index(b) + len(b)] + '\n' + '\n'.join(out[5:]) + '\n' + d[d.index(e):]
+    open(design, 'w').write(d)
 print('\n'.join(out))
